@@ -600,7 +600,7 @@ fn direct_window(built: &BuiltScen, u: &URef, from: Pos, to: Pos, polls: u32) ->
     (calls, true)
 }
 
-pub const CONSUMER_KINDS: [&str; 10] = ["collect", "count", "last", "nth7", "fold", "skip_then_collect", "count_by_value", "last_by_value", "fold_by_value", "collect_by_value"];
+pub const CONSUMER_KINDS: [&str; 14] = ["collect", "count", "last", "nth7", "fold", "skip_then_collect", "count_by_value", "last_by_value", "fold_by_value", "collect_by_value", "next_k_then_count_by_value", "next_k_then_fold_by_value", "next_k_then_last_by_value", "next_k_then_collect_by_value"];
 
 /// The same window through a std consumer instead of bare next() calls: what
 /// comes out must still be the window of U (an overridden count()/nth()/fold()
@@ -613,7 +613,7 @@ fn consumer_window(built: &BuiltScen, u: &URef, from: Pos, to: Pos, kind: &str) 
     // scoped evaluator drained by plain next() calls — its own order, which the
     // window oracle relates to U position by position
     let own: Vec<(u8, u8, u64)>;
-    let want: &[(u8, u8, u64)] = if matches!(kind, "last" | "nth7" | "skip_then_collect" | "last_by_value") {
+    let want: &[(u8, u8, u64)] = if matches!(kind, "last" | "nth7" | "skip_then_collect" | "last_by_value") || kind.starts_with("next_k_then_") {
         let (outs, complete) = drain(&built.scen.flop, &built.ranges, &[(from, to)], u.window(from, to).len() as u64 + 8);
         if !complete || !matches!(outs.last(), Some(Out::End)) {
             return None; // the plain drain itself misbehaves: the window oracle reports that
@@ -636,10 +636,22 @@ fn consumer_window(built: &BuiltScen, u: &URef, from: Pos, to: Pos, kind: &str) 
     let dm = DeckMap::new(&built.scen.flop);
     if kind.ends_with("_by_value") {
         // the iterator's own count()/last()/fold()/collect() (any override included),
-        // unbounded, so under a watchdog: the only wall-clock read of this check
-        let it = st.it;
-        let want_v: Vec<(u8, u8, u64)> = want.to_vec();
-        let kind_s = kind.to_string();
+        // unbounded, so under a watchdog: the only wall-clock read of this check.
+        // "next_k_then_*": a few plain next() calls first, stopping inside a position,
+        // then the by-value consumer on what is left
+        let mut it = st.it;
+        let mut want_v: Vec<(u8, u8, u64)> = want.to_vec();
+        let mut kind_s = kind.to_string();
+        if let Some(rest) = kind.strip_prefix("next_k_then_") {
+            let k = (1 + (pos_index(from) + pos_index(to)) % 5).min(want_v.len());
+            for _ in 0..k {
+                if guarded(|| it.next()).is_err() {
+                    return None; // plain next() misbehaving is the window oracle's business
+                }
+            }
+            want_v.drain(..k);
+            kind_s = rest.to_string();
+        }
         let flop = built.scen.flop;
         let (tx, rx) = std::sync::mpsc::channel::<Option<String>>();
         let _ = std::thread::Builder::new().stack_size(crate::util::BIG_STACK).spawn(move || {
